@@ -204,6 +204,9 @@ def insert_bodies(an, cm, roles, res):
             yield m, top, bodies
 
 
+TTL_CONTAINERS_ALL = ('tlru_cache', 'utlru_cache', 'ut_map', 'ut_set')
+
+
 def rule_insert_table(an, res, prop):
     """R-INSERT-TABLE / R-REJECT-PURE / R-TALLY (C09); the same walk feeds C19's rejected-insert clause"""
     for cm, roles in an.classes():
@@ -273,6 +276,21 @@ def rule_insert_table(an, res, prop):
                     if not okp:
                         V(res, prop, 'R-REJECT-PURE', cm, b.where, 'rejected insert changes state: ' + ','.join(sorted(set(e.kind for e in effs))),
                           first_site(effs, seg, m), 'rejected insert [%s] has effects %s' % (val, [repr(e) for e in effs][:4]))
+            if prop == 'C09':
+                # every range element goes through the presence test the allow modes are defined over
+                for lp, s2 in ops.bodiless_iterations(top):
+                    res.ob('R-INSERT-TABLE', ok=False)
+                    V(res, prop, 'R-INSERT-TABLE', cm, m.key(), 'a range element is written without the presence test the allow mode is defined over',
+                      site_of_seg(s2, m), 'iteration path [%s] has effects %s' % (' '.join(s2.valuation()), sorted(set(e.kind for e in s2.state_effects()))))
+                # ... and no entry is created except on the row of the table that says so (key established absent)
+                for seg in top.all_segments():
+                    if lift.feasible(seg)[0]:
+                        check_bind_dominated(res, prop, cm, roles, m, seg)
+                if cm.name in TTL_CONTAINERS_ALL:
+                    # "replaces the value (restarting any TTL)"
+                    from rules_ttl import check_write_restarts
+                    for b in bodies:
+                        check_write_restarts(res, prop, cm, roles, m, b)
             # tally plumbing of the range method itself
             if prop == 'C09' and any(b.in_loop is not None for b in bodies):
                 name = ops.tally_var(top.ret)
